@@ -286,11 +286,19 @@ def check_c32(rep, thorough):
              "recorded histories validated by TLC; distinct by history")
     rep.assume("symbolic/callable PythTB parameters and TBmodels constructor hoppings are outside the model (numeric builder calls only); positions enter only "
                "through `% 1`; energies are compared at 5 k-points with 1e-8")
-    runs = [("c32_ptb", dict(LIB='"ptb"', NORB=2, NS=1, MAXSTEPS=3 if thorough else 2, KDIRS=1, NAMP=1)),
-            ("c32_ptb_spinful", dict(LIB='"ptb"', NORB=1 if not thorough else 2, NS=2, MAXSTEPS=2, KDIRS=1, NAMP=2 if not thorough else 1)),
-            ("c32_tbm", dict(LIB='"tbm"', NORB=2, NS=1, MAXSTEPS=3 if thorough else 2, KDIRS=2, NAMP=2 if not thorough else 1)),
-            ("c32_pair", dict(LIB='"pair"', NORB=2, NS=1, MAXSTEPS=3 if thorough else 2, KDIRS=2, NAMP=2 if not thorough else 1)),
-            ("c32_haldane", dict(LIB='"haldane"'))]
+    if thorough:
+        runs = [("c32_ptb", dict(LIB='"ptb"', NORB=2, NS=1, MAXSTEPS=2, KDIRS=1, NAMP=2)),
+                ("c32_ptb_3steps", dict(LIB='"ptb"', NORB=1, NS=1, MAXSTEPS=3, KDIRS=1, NAMP=1)),
+                ("c32_ptb_spinful", dict(LIB='"ptb"', NORB=2, NS=2, MAXSTEPS=2, KDIRS=1, NAMP=1)),
+                ("c32_tbm", dict(LIB='"tbm"', NORB=2, NS=1, MAXSTEPS=3, KDIRS=2, NAMP=1)),
+                ("c32_pair", dict(LIB='"pair"', NORB=2, NS=1, MAXSTEPS=3, KDIRS=2, NAMP=1)),
+                ("c32_haldane", dict(LIB='"haldane"'))]
+    else:
+        runs = [("c32_ptb", dict(LIB='"ptb"', NORB=2, NS=1, MAXSTEPS=2, KDIRS=1, NAMP=1)),
+                ("c32_ptb_spinful", dict(LIB='"ptb"', NORB=1, NS=2, MAXSTEPS=2, KDIRS=1, NAMP=2)),
+                ("c32_tbm", dict(LIB='"tbm"', NORB=2, NS=1, MAXSTEPS=2, KDIRS=2, NAMP=1)),
+                ("c32_pair", dict(LIB='"pair"', NORB=2, NS=1, MAXSTEPS=2, KDIRS=2, NAMP=1)),
+                ("c32_haldane", dict(LIB='"haldane"'))]
     maxdev = 0.0
     for name, kw in runs:
         c, consts = cfg(**kw)
